@@ -1,17 +1,24 @@
 #!/bin/bash
-# Runs every seeded change against its own check and the related ones; writes seeded/MATRIX.txt
+# Runs every seeded change against its own check and the related ones (each in a private copy of /verif and a
+# scratch worktree of /repo, see tools/try_mutation.sh); writes seeded/MATRIX.txt.   usage: tools/seed_matrix.sh [parallelism]
 cd /verif
+par="${1:-4}"
 declare -A REL=( [C01]="C01 C04 C05" [C02]="C02 C12" [C03]="C03 C04 C05" [C04]="C04 C03 C01" [C05]="C05 C04" [C06]="C06 C02" [C07]="C07 C03 C06" [C08]="C08" [C09]="C09"
- [C10]="C10 C05" [C11]="C11 C01" [C12]="C12 C02" [C13]="C13 C03" [C14]="C14" [C15]="C15" [C16]="C16 C07" [C17]="C17" [C18]="C18" [C19]="C19 C05" [C20]="C20" )
+ [C10]="C10 C05" [C11]="C11 C01" [C12]="C12 C02" [C12b]="C12 C04 C08 C01" [C13]="C13 C03" [C14]="C14" [C15]="C15" [C16]="C16 C07" [C17]="C17" [C18]="C18" [C19]="C19 C05" [C20]="C20" )
 out=seeded/MATRIX.txt
-: > "$out"
-for s in $(ls seeded | grep '^C'); do
-  for p in ${REL[$s]}; do
-    r=$(tools/try_mutation.sh seeded/$s/patch.diff $p 2>&1)
-    if echo "$r" | grep -q "PATCH DOES NOT APPLY"; then v="patch-does-not-apply";
-    elif echo "$r" | grep -q "no-failing-input-found"; then v="VIOLATION(no-failing-input-found)";
-    elif echo "$r" | grep -q "^VIOLATION"; then v="VIOLATION(with failing input)";
-    else v="not detected"; fi
-    echo "seed=$s check=$p -> $v" | tee -a "$out"
-  done
-done
+tmp=$(mktemp -d /tmp/matrix.XXXX)
+one() {
+  s="$1"; p="$2"
+  r=$(tools/try_mutation.sh seeded/$s/patch.diff $p 2>&1)
+  if echo "$r" | grep -q "PATCH DOES NOT APPLY"; then v="patch-does-not-apply";
+  elif echo "$r" | grep -q "no-failing-input-found"; then v="VIOLATION(no-failing-input-found)";
+  elif echo "$r" | grep -q "^VIOLATION"; then v="VIOLATION(with failing input)";
+  elif echo "$r" | grep -q "exit=0"; then v="not detected";
+  else v="check did not finish: $(echo "$r" | tail -1 | cut -c1-120)"; fi
+  echo "seed=$s check=$p -> $v"
+}
+export -f one
+for s in $(ls seeded | grep '^C'); do for p in ${REL[$s]}; do echo "$s $p"; done; done \
+  | xargs -P "$par" -L 1 bash -c 'one $0 $1' | tee "$tmp/raw.txt"
+sort "$tmp/raw.txt" > "$out"
+rm -rf "$tmp"
